@@ -896,7 +896,46 @@ def run_consumer_part(ctx, script=None, path=None):
 
 # ------------------------------------------------------------------------------------------------------------------
 
+def oracle_selftest(ctx):
+    """the scan oracle must stay silent on a consistent table and must see a stale index, a missing back reference,
+    an empty list and an unlisted object (guards against an oracle that went blind)"""
+    t, idxs = build_table([['m', 1], ['u', 1], ['n', 0]])
+    a, b = Obj(1), Obj(2)
+    a.a0, a.a1, a.a2 = 1, 1, [1, 2, 2]
+    b.a0, b.a1, b.a2 = 1, 2, None
+    t.add_object(a)
+    t.add_object(b)
+
+    def expect(what, needle):
+        probs = mk_oracle.table_problems(t, 'selftest')
+        if needle is None and probs:
+            raise RuntimeError(f'oracle self-test ({what}): false alarm {probs}')
+        if needle is not None and not any(needle in p for p in probs):
+            raise RuntimeError(f'oracle self-test ({what}): {needle!r} not reported, got {probs}')
+        ctx.count('oracle-selftest')
+    expect('consistent', None)
+    a.a0 = 2
+    expect('stale multi index', 'selftest.i0[')
+    t.update_object(a)
+    expect('re-indexed', None)
+    a.a2 = [2]
+    expect('stale 1:n index', 'selftest.i2[')
+    expect('stale back references', 'selftest._object_ids[')
+    t.update_object(a)
+    dict.__setitem__(idxs[0], 9, [])
+    expect('empty list', 'empty list stored')
+    dict.__delitem__(idxs[0], 9)
+    saved = t._object_ids.pop(id(b))
+    expect('missing back reference', 'no entry for stored object')
+    t._object_ids[id(b)] = saved
+    t._objects.discard(b)
+    expect('listed but not stored', 'not stored')
+    t._objects.add(b)
+    expect('restored', None)
+
+
 def run(ctx):
+    oracle_selftest(ctx)
     corpus = os.path.join(core.VERIF, 'corpus', 'C11')
     if os.path.isdir(corpus):
         for f in sorted(os.listdir(corpus)):
